@@ -201,8 +201,10 @@ def finish(rep, level_category, explanation, checker_cmd):
     except jsonschema.ValidationError as e:
         print('FAULT: evidence does not validate: %s' % e.message)
         code = EXIT_FAULT if code == EXIT_OK else code
-    os.makedirs(os.path.join(VERIF, 'evidence'), exist_ok=True)
-    with open(os.path.join(VERIF, 'evidence', rep.pid + '.json'), 'w') as f:
+    # evidence/ only ever describes runs against /repo itself; runs against a scratch copy (VERIF_REPO) write to scratch/
+    evdir = os.path.join(VERIF, 'evidence') if os.path.realpath(REPO) == '/repo' else os.path.join(VERIF, 'scratch', 'evidence-other-tree')
+    os.makedirs(evdir, exist_ok=True)
+    with open(os.path.join(evdir, rep.pid + '.json'), 'w') as f:
         json.dump(ev, f, indent=1, default=str)
     for ob in rep.obs:
         if ob.status in ('undecided', 'fault'):
